@@ -53,7 +53,7 @@ def year_start_targets(lib, zones):
     return out
 
 
-def render_and_read_back(v, data, work, counters, has_valid_abbrev=True, has_valid_dst=True, tag="render"):
+def render_and_read_back(v, data, work, counters, has_valid_abbrev=True, has_valid_dst=True, tag="render", blacklist=None):
     """Render ValidationData with the real ArduinoValidationGenerator, compile, read every item back.
     The two has_valid_* flags of the data set tell the generated *tests* what to compare; they are not a licence to
     drop or change what the *tables* carry (the property: rendering preserves every item's numbers and strings)."""
@@ -66,7 +66,7 @@ def render_and_read_back(v, data, work, counters, has_valid_abbrev=True, has_val
     out.mkdir()
     logging.getLogger().setLevel(logging.CRITICAL + 1)
     try:
-        arval.ArduinoValidationGenerator("verif", "x", "extended", "valdb", vd, {}).generate_files(str(out))
+        arval.ArduinoValidationGenerator("verif", "x", "extended", "valdb", vd, dict(blacklist or {})).generate_files(str(out))
     except BaseException as e:  # noqa
         v.violation("c19:renderer-raises:%s" % type(e).__name__, "ArduinoValidationGenerator raised", {"error": repr(e)[:300]})
         return
@@ -102,6 +102,9 @@ def render_and_read_back(v, data, work, counters, has_valid_abbrev=True, has_val
             continue
         for it, f in zip(items, g):
             counters["rendered_items"] = counters.get("rendered_items", 0) + 1
+            if blacklist and blacklist.get(z):
+                k = "rendered_items_of_blacklisted_zones" + ("_of_type_a_or_b" if it["type"] in "ab" else "")
+                counters[k] = counters.get(k, 0) + 1
             # the tables hold minutes: a sub-minute offset is cut toward zero, the way the compiler cuts STDOFF/SAVE in the zone
             # tables these data are compared with (-0:44:30 -> -0:44), never away from zero
             want = [str(it["epoch"]), str(int(it["total_offset"] / 60)), str(int(it["dst_offset"] / 60)), str(it["y"]), str(it["M"]), str(it["d"]),
@@ -223,6 +226,25 @@ def run(tier):
         if old_data:
             tot["old_sub_minute_zones"] = len(old_data)
             render_and_read_back(v, old_data, work, tot, tag="render-sub-minute")
+        # a blacklist ("partial" / "full" per zone) steers what the generated tests compare for a zone; the tables still carry
+        # every collected item, including the DST-only pairs (types 'a', 'b') that the blacklist is about
+        bl_data = {}
+        for zn, (sy, uy) in {"America/Argentina/Buenos_Aires": (2000, 2002), "Asia/Aqtau": (2004, 2006), "Europe/Istanbul": (2016, 2018),
+                             "America/Los_Angeles": (2000, 2002), "Europe/Dublin": (2000, 2002), "Africa/Windhoek": (2000, 2002),
+                             "Europe/Prague": (2000, 2002)}.items():
+            if zn in dz:
+                items = DUGen(sy, uy, 22, True)._create_test_items_for_zone(zn)
+                if items:
+                    bl_data[zn] = items
+        if bl_data:
+            names = sorted(bl_data)
+            render_and_read_back(v, bl_data, work, tot, tag="render-blacklist-partial", blacklist={z: "partial" for z in names})
+            render_and_read_back(v, bl_data, work, tot, tag="render-blacklist-mixed", blacklist={z: ("full" if i % 2 else "partial") for i, z in enumerate(names)})
+            render_and_read_back(v, bl_data, work, tot, tag="render-blacklist-mixed2", blacklist={z: ("partial" if i % 2 else "full") for i, z in enumerate(names)})
+        if data:
+            some = {z: data[z] for z in sorted(data)[8:20]}
+            if some:
+                render_and_read_back(v, some, work, tot, tag="render-blacklist-pytz", blacklist={z: ("full" if i % 3 == 0 else "partial") for i, z in enumerate(sorted(some))})
     except Exception as e:  # noqa  machinery: the generator itself is judged in the workers
         v.inconclusive_because("sub-minute rendering set could not be collected: %r" % (e,))
     # the generators as they are used: test_data_generator.py as a script, zone names on stdin (with comment and blank lines),
@@ -329,6 +351,8 @@ def run(tier):
                 v.inconclusive_because("the java.time generator was not exercised enough: %r" % {k: n for k, n in tot.items() if k.startswith("java")})
     if tot.get("e2e_zones", 0) < 16:
         v.inconclusive_because("the generator scripts were not exercised end to end: %r" % {k: n for k, n in tot.items() if k.startswith("e2e")})
+    if tot.get("rendered_items_of_blacklisted_zones_of_type_a_or_b", 0) < 4 or tot.get("rendered_items_of_blacklisted_zones", 0) < 200:
+        v.inconclusive_because("too few items of blacklisted zones rendered: %r" % {k: n for k, n in tot.items() if "blacklist" in k})
     if tot.get("configs", 0) < 500 or tot.get("library_changes", 0) < 5000 or tot.get("rendered_items", 0) < 5000:
         v.inconclusive_because("deciding counters too low: %r" % tot)
     v.coverage.update({
